@@ -100,7 +100,7 @@ def validate(ctx, traces, module="TraceExec", cfg=None, timeout=1800, env=None, 
         if r["timeout"]:
             raise Machinery(f"TLC timed out on {module} shard {si}")
         if not r["ok"]:
-            raise Machinery(f"TLC failed on {module}: {r['error'] or r['stdout'][-2000:]}")
+            raise Machinery(f"TLC failed on {module}: {(r['error'] or r['stdout'][-800:])[:800]}")
         want = sum(len(t["ev"]) + 1 for t in part)
         if r["distinct"] != want:
             raise Machinery(f"{module}: distinct states {r['distinct']} != expected {want} "
@@ -125,7 +125,7 @@ def totals_py(t):
         if e[0] == 0 and e[1] == 0:
             k = e[2]
             if k == 1:
-                nR += max(e[3] - e[4], 0)
+                nR += max(e[3] - e[4], 0) if e[3] < 10 ** 9 else 0
             elif k == 0 and e[7] == 1:
                 nDW += 1
             elif k in (2, 3):
